@@ -6,6 +6,9 @@ lib/src/compiler/ir/ast2ir.rs (fn escape, the producer's guard).
   `sort_by_key(|patch| patch.span().start())` (stable);
 * truncates_before_writing: `File::create(origin)` is executed before the
   loop that slices the input (so a slicing panic leaves a damaged file);
+* groups_by_path_as_given: the key of `patches_per_origin` is the origin string
+  of the patch (the path as written on the command line) rather than a
+  canonical path.
 * skips_overlapping: the loop starts with the guard `if span.start() <
   input_pos || span.end() < span.start() || span.end() > input.len() { ..;
   continue; }`;
@@ -107,7 +110,20 @@ def fix_flags(fix_src):
         if not re.search(r"File::create\(|fs::write\(", after):
             raise TranslateError("exec_fix_warnings: cannot find where the output file is written")
         trunc = False
-    return sorts, trunc, skips
+    # under which key are the patches of a file collected?
+    km = re.search(r"patches_per_origin\.entry\(((?:[^()]|\([^()]*\))*)\)", before)
+    if not km:
+        raise TranslateError("exec_fix_warnings: `patches_per_origin.entry(..)` not found")
+    key = re.sub(r"\s+", "", km.group(1))
+    if key == "patch.origin().unwrap()":
+        by_given_path = True
+    elif key == "origin" and re.search(r"let origin = patch\.origin\(\)\.unwrap\(\); let origin = match fs::canonicalize\(&origin\) \{ Ok\(path\) => path\.to_string_lossy\(\)\.into_owned\(\), Err\(_\) => origin, \};", before):
+        by_given_path = False
+    else:
+        raise TranslateError(f"exec_fix_warnings: key of patches_per_origin not understood: {km.group(1).strip()[:120]}")
+    if not re.search(r"for \(origin, patches\) in &patches_per_origin \{ let input = fs::read\(origin\)\?;", before):
+        raise TranslateError("exec_fix_warnings: no longer one read-patch-write round per key of patches_per_origin")
+    return sorts, trunc, skips, by_given_path
 
 
 def escape_table(ast2ir):
@@ -144,7 +160,7 @@ def escape_table(ast2ir):
 
 
 def main():
-    sorts, trunc, skips = fix_flags(src("cli/src/commands/fix.rs"))
+    sorts, trunc, skips, by_given_path = fix_flags(src("cli/src/commands/fix.rs"))
     table, lo, hi, extra = escape_table(src("lib/src/compiler/ir/ast2ir.rs"))
     b = lambda x: "true" if x else "false"
     nl = lambda l: "[" + "; ".join(str(x) for x in l) + "]"
@@ -160,6 +176,10 @@ Definition sorts_by_start : bool := {b(sorts)}.
 Definition truncates_before_writing : bool := {b(trunc)}.
 (* exec_fix_warnings: a patch with start < input_pos, end < start or end > len is skipped *)
 Definition skips_overlapping : bool := {b(skips)}.
+(* exec_fix_warnings: the patches are collected per path AS WRITTEN on the command line
+   (patch.origin()), one read-patch-write round per key: a file given under two
+   spellings is patched twice *)
+Definition groups_by_path_as_given : bool := {b(by_given_path)}.
 
 (* fn escape: char -> replacement; every other char is copied *)
 Definition escape_table : list (N * list N) := [{"; ".join(f"({c}, {nl(r)})" for c, r in table)}].
